@@ -225,7 +225,8 @@ impl JsonGen {
                 }
                 _ => {
                     o["exclusiveMinimum"] = json!(a);
-                    o["maximum"] = json!(b + 1.0);
+                    // (rounded again: 1.47 + 1.0 is 2.4699999999999998 in f64, a 17-digit bound that belongs to C08's own class)
+                    o["maximum"] = json!(((b + 1.0) * 100.0).round() / 100.0);
                 }
             }
         }
@@ -456,7 +457,16 @@ impl<'a> InstGen<'a> {
             for _ in 0..4 {
                 let br = rng.pick(a).clone();
                 if let Some(v) = self.gen(rng, &br, depth + 1) {
-                    return Some(v);
+                    // the instance has to be valid for the branch it was built from: an instance that only
+                    // validates through ANOTHER branch carries its keys in the wrong branch's order
+                    let text = serde_json::to_string(&v).unwrap_or_default();
+                    let ok = match crate::ref_json::JParser::parse(text.as_bytes()) {
+                        Ok(j) => matches!(crate::ref_json::Validator::new(self.root).validate(&br, &j), crate::ref_json::Verdict::Valid),
+                        Err(_) => false,
+                    };
+                    if ok {
+                        return Some(v);
+                    }
                 }
             }
             return None;
